@@ -237,14 +237,15 @@ Theorem C16_generated_verify_flag : forall v s,
 Proof. exact tie_eff_verify. Qed.
 Print Assumptions C16_generated_verify_flag.
 
-(* the hypothesis [legal] ("who destroys a name re-creates it") cannot be dropped: a writer whose copy fails
-   after its reflink attempt stops after [ProbeUnlink]; the complete object the other writer placed is then
-   absent from the final store although that writer ran its whole legal program.  Reproduced on the
-   implementation with one injected EIO (harness signature
-   C16:failed-writer-probe-removed-another-writers-object) *)
-Theorem C16_failed_prober_loses_object : forall loc,
+(* OBSERVATION, outside C16's quantifier (C16 is about fault-free writers): a fact about the FAULTED machine.
+   A writer whose copy fails after its reflink attempt stops after [ProbeUnlink] - its program is not [legal] -
+   and the complete object the other writer placed is then absent from the final store although that writer
+   ran its whole legal program.  It shows that the hypothesis [legal] ("who destroys a name re-creates it")
+   of the theorems above cannot be dropped.  Same root cause as the two known probe findings; seen on the
+   implementation with one injected EIO (evidence: observations). *)
+Theorem C16_observation_failed_prober_loses_object : forall loc,
   legal loc ex_its fex_failed = false /\ legal loc ex_its (ex_prog_of loc) = true /\
   exists w ps, run [ex_its; ex_its] fex_sched w0 [fex_failed; ex_prog_of loc] = Some (w, ps) /\
                all_done ps = true /\ view w ex_o = None.
 Proof. exact failed_prober_loses_object. Qed.
-Print Assumptions C16_failed_prober_loses_object.
+Print Assumptions C16_observation_failed_prober_loses_object.
